@@ -3,7 +3,7 @@
 From Coq Require Import String.
 From PV Require Import Base.Bytes Base.Outcome Base.Prim Base.Fmt Base.Enum Base.PyData.
 From PV Require Import Proofs.FmtProofs Proofs.PrimProofs Proofs.ElfLayoutFacts.
-From PV Require Import Gen.ElfLayouts Gen.Tables.
+From PV Require Import Gen.ElfLayouts Gen.Tables Gen.PyFuns.
 From PV Require Import Spec.PrimSpec Spec.ElfGabi Spec.C01Obs Spec.C01Image Model.C01ElfFile.
 From PV Require Import Proofs.C01Lemmas Proofs.C01Records.
 From Coq Require Import ZifyBool.
@@ -42,10 +42,12 @@ Lemma core_shb img s : c_shb (exp_core img s) = [("sh_type", sh_id s, false)].
 Proof. unfold exp_core, mk_core. cbn [c_shb]. rewrite rebind_shdr. reflexivity. Qed.
 Lemma core_phb img s : c_phb (exp_core img s) = [("p_type", p_id s, false)].
 Proof. unfold exp_core, mk_core. cbn [c_phb]. rewrite rebind_phdr. reflexivity. Qed.
+Lemma T_sh_type_eq s : T_sh_type s = table_of_id (sh_id s). Proof. reflexivity. Qed.
+Lemma T_p_type_eq s : T_p_type s = table_of_id (p_id s). Proof. reflexivity. Qed.
 Lemma exp_shdr_rec s h : exp_shdr s h = shdr_rec (table_of_id (sh_id s)) h.
-Proof. reflexivity. Qed.
+Proof. unfold exp_shdr, shdr_rec. rewrite T_sh_type_eq. reflexivity. Qed.
 Lemma exp_phdr_rec s p : exp_phdr s p = phdr_rec (i_is64 s) (table_of_id (p_id s)) p.
-Proof. unfold exp_phdr, phdr_rec. destruct (i_is64 s); reflexivity. Qed.
+Proof. unfold exp_phdr, phdr_rec. rewrite T_p_type_eq. reflexivity. Qed.
 
 Lemma hdr_shoff img s : hz (c_hdr (exp_core img s)) "e_shoff" = e_shoff (i_ehdr s). Proof. reflexivity. Qed.
 Lemma hdr_phoff img s : hz (c_hdr (exp_core img s)) "e_phoff" = e_phoff (i_ehdr s). Proof. reflexivity. Qed.
@@ -55,18 +57,45 @@ Lemma hdr_shnum img s : hz (c_hdr (exp_core img s)) "e_shnum" = e_shnum (i_ehdr 
 Lemma hdr_phnum img s : hz (c_hdr (exp_core img s)) "e_phnum" = e_phnum (i_ehdr s). Proof. reflexivity. Qed.
 Lemma hdr_shstrndx img s : hz (c_hdr (exp_core img s)) "e_shstrndx" = e_shstrndx (i_ehdr s). Proof. reflexivity. Qed.
 
-Lemma shdr_get_name s h : hz (exp_shdr s h) "sh_name" = sh_name h. Proof. reflexivity. Qed.
-Lemma shdr_get_type s h : hty (exp_shdr s h) "sh_type" = sh_tyname s h. Proof. reflexivity. Qed.
-Lemma shdr_get_flags s h : hz (exp_shdr s h) "sh_flags" = sh_flags h. Proof. reflexivity. Qed.
-Lemma shdr_get_offset s h : hz (exp_shdr s h) "sh_offset" = sh_offset h. Proof. reflexivity. Qed.
-Lemma shdr_get_size s h : hz (exp_shdr s h) "sh_size" = sh_size h. Proof. reflexivity. Qed.
-Lemma shdr_get_link s h : hz (exp_shdr s h) "sh_link" = sh_link h. Proof. reflexivity. Qed.
-Lemma shdr_get_info s h : hz (exp_shdr s h) "sh_info" = sh_info h. Proof. reflexivity. Qed.
-Lemma shdr_get_entsize s h : hz (exp_shdr s h) "sh_entsize" = sh_entsize h. Proof. reflexivity. Qed.
+Lemma shdr_rec_type tbl h : hty (shdr_rec tbl h) "sh_type" = named tbl (sh_type h). Proof. reflexivity. Qed.
+Lemma phdr_rec_type is64 tbl p : hty (phdr_rec is64 tbl p) "p_type" = named tbl (p_type p).
+Proof. destruct is64; reflexivity. Qed.
+Lemma phdr_rec_offset is64 tbl p : hz (phdr_rec is64 tbl p) "p_offset" = p_offset p.
+Proof. destruct is64; reflexivity. Qed.
+
+Lemma shdr_get_name s h : hz (exp_shdr s h) "sh_name" = sh_name h. Proof. rewrite exp_shdr_rec. reflexivity. Qed.
+Lemma shdr_get_type s h : hty (exp_shdr s h) "sh_type" = sh_tyname s h.
+Proof. rewrite exp_shdr_rec, shdr_rec_type. unfold sh_tyname. rewrite T_sh_type_eq. reflexivity. Qed.
+Lemma shdr_get_flags s h : hz (exp_shdr s h) "sh_flags" = sh_flags h. Proof. rewrite exp_shdr_rec. reflexivity. Qed.
+Lemma shdr_get_offset s h : hz (exp_shdr s h) "sh_offset" = sh_offset h. Proof. rewrite exp_shdr_rec. reflexivity. Qed.
+Lemma shdr_get_size s h : hz (exp_shdr s h) "sh_size" = sh_size h. Proof. rewrite exp_shdr_rec. reflexivity. Qed.
+Lemma shdr_get_link s h : hz (exp_shdr s h) "sh_link" = sh_link h. Proof. rewrite exp_shdr_rec. reflexivity. Qed.
+Lemma shdr_get_info s h : hz (exp_shdr s h) "sh_info" = sh_info h. Proof. rewrite exp_shdr_rec. reflexivity. Qed.
+Lemma shdr_get_entsize s h : hz (exp_shdr s h) "sh_entsize" = sh_entsize h. Proof. rewrite exp_shdr_rec. reflexivity. Qed.
 Lemma phdr_get_type s p : hty (exp_phdr s p) "p_type" = p_tyname s p.
-Proof. unfold exp_phdr. destruct (i_is64 s); reflexivity. Qed.
+Proof. rewrite exp_phdr_rec, phdr_rec_type. unfold p_tyname. rewrite T_p_type_eq. reflexivity. Qed.
 Lemma phdr_get_offset s p : hz (exp_phdr s p) "p_offset" = p_offset p.
-Proof. unfold exp_phdr. destruct (i_is64 s); reflexivity. Qed.
+Proof. rewrite exp_phdr_rec. apply phdr_rec_offset. Qed.
+
+(* the predicates of Spec/C01Image.v, unfolded one level (stated in this direction on purpose:
+   the checker then unfolds the predicate, not the booleans inside it) *)
+Lemma ehdr_ok_eq img s :
+  ehdr_ok img s = fits_layout (L_ehdr s) (ehdr_vals s) && at_ img 0 (encode_ehdr s).
+Proof. reflexivity. Qed.
+Lemma sections_ok_eq img s : sections_ok img s =
+  (n_sections s =? 0) ||
+  ((shdr_size s <=? e_shentsize (i_ehdr s)) && (0 <=? e_shoff (i_ehdr s)) &&
+   forallb (fun x => fits_layout (L_shdr s) (shdr_vals (snd x))) (i_sections s) &&
+   table_at (drop (e_shoff (i_ehdr s)) img) (Z.to_nat (e_shentsize (i_ehdr s)))
+            (map (fun x => encode_shdr s (snd x)) (i_sections s))).
+Proof. reflexivity. Qed.
+Lemma segments_ok_eq img s : segments_ok img s =
+  (n_segments s =? 0) ||
+  ((phdr_size s <=? e_phentsize (i_ehdr s)) && (0 <=? e_phoff (i_ehdr s)) &&
+   forallb (fun p => fits_layout (L_phdr s) (phdr_vals (i_is64 s) p)) (i_segments s) &&
+   table_at (drop (e_phoff (i_ehdr s)) img) (Z.to_nat (e_phentsize (i_ehdr s)))
+            (map (encode_phdr s) (i_segments s))).
+Proof. reflexivity. Qed.
 
 Lemma nth_sec_inv s i x : nth_sec s i = Some x ->
   0 <= i < n_sections s /\ nth_error (i_sections s) (Z.to_nat i) = Some x.
@@ -83,6 +112,43 @@ Proof.
 Qed.
 Lemma nth_sec_in s i x : nth_sec s i = Some x -> In x (i_sections s).
 Proof. intros H. apply nth_sec_inv in H. destruct H as [_ H]. eapply nth_error_In. exact H. Qed.
+
+Lemma counts_ok_eq s : counts_ok s =
+  let e := i_ehdr s in
+  let n := n_sections s in let m := n_segments s in let k := i_shstrndx s in
+  (   ((n =? 0) && (e_shoff e =? 0) && (e_shnum e =? 0))
+   || ((0 <? n) && (0 <? e_shoff e) && (n <? SHN_LORESERVE) && (e_shnum e =? n))
+   || ((0 <? n) && (0 <? e_shoff e) && (e_shnum e =? 0) && (sh_size (sec0 s) =? n)) )
+  &&
+  (   ((m =? 0) && (e_phoff e =? 0))
+   || ((0 <? e_phoff e) && (m <? PN_XNUM) && (e_phnum e =? m))
+   || ((0 <? e_phoff e) && (e_phnum e =? PN_XNUM) && (0 <? n) && (sh_info (sec0 s) =? m)) )
+  &&
+  ( if n =? 0 then (e_shstrndx e =? 0) && (k =? 0)
+    else (0 <=? k) && (k <? n) &&
+         (   ((k <? SHN_LORESERVE) && (e_shstrndx e =? k))
+          || ((e_shstrndx e =? XINDEX) && (sh_link (sec0 s) =? k)) ) ).
+Proof. reflexivity. Qed.
+Lemma kinds_ok_eq img s : kinds_ok img s = forallb (kind_ok img s) (i_sections s).
+Proof. reflexivity. Qed.
+Lemma names_ok_eq img s : names_ok img s = forallb (name_at img s) (i_sections s).
+Proof. reflexivity. Qed.
+Lemma kind_ok_eq img s x : kind_ok img s x =
+  base_ok img s (snd x) && req_ok img s (snd x) (snd (kind_entry (sh_tyname s (snd x)) (fst x))).
+Proof. reflexivity. Qed.
+Lemma base_ok_eq img s h : base_ok img s h =
+  (Z.land (sh_flags h) SHF_COMPRESSED_STD =? 0) ||
+  readable img (sh_offset h) (spec_Elf_Chdr (i_le s) (i_is64 s)).
+Proof. reflexivity. Qed.
+Lemma name_at_eq img s x : name_at img s x =
+  no_nul (fst x) && at_ img (strtab_offset s + sh_name (snd x)) (fst x ++ [0]).
+Proof. reflexivity. Qed.
+
+Lemma sec0_nth s x : nth_sec s 0 = Some x -> sec0 s = snd x.
+Proof.
+  intros H. apply nth_sec_inv in H. destruct H as [_ H]. unfold sec0.
+  destruct (i_sections s) as [|y l]; [discriminate|]. cbn in H. inversion H. reflexivity.
+Qed.
 
 Section WF.
 Variable img : list Z.
@@ -110,7 +176,7 @@ Proof. unfold wf_image in Hwf. rewrite !andb_true_iff in Hwf. tauto. Qed.
 (* ---- the file header *)
 Lemma img_ehdr : exists t, img = encode_ehdr s ++ t.
 Proof.
-  pose proof wf_ehdr as H. unfold ehdr_ok in H. apply andb_prop in H. destruct H as [_ H].
+  pose proof wf_ehdr as H. rewrite ehdr_ok_eq in H. apply andb_prop in H. destruct H as [_ H].
   apply at_skipn in H. destruct H as [_ [t Ht]]. exists t. exact Ht.
 Qed.
 
@@ -122,7 +188,7 @@ Qed.
 
 Lemma parse_header_ok : parse_elf_header img (i_is64 s) (i_le s) = Ok (exp_ehdr s).
 Proof.
-  destruct img_ehdr as [t Ht]. pose proof wf_ehdr as H. unfold ehdr_ok in H.
+  destruct img_ehdr as [t Ht]. pose proof wf_ehdr as H. rewrite ehdr_ok_eq in H.
   apply andb_prop in H. destruct H as [Hf _].
   unfold parse_elf_header.
   apply struct_parse_at_exact with (L := L_ehdr s) (vals := ehdr_vals s) (t := t).
@@ -140,7 +206,7 @@ Lemma sections_parts : 0 < n_sections s ->
   table_at (drop (e_shoff (i_ehdr s)) img) (Z.to_nat (e_shentsize (i_ehdr s)))
            (map (fun x => encode_shdr s (snd x)) (i_sections s)) = true.
 Proof.
-  intros Hn. pose proof wf_sections as H. unfold sections_ok in H.
+  intros Hn. pose proof wf_sections as H. rewrite sections_ok_eq in H.
   destruct (Z.eqb_spec (n_sections s) 0) as [E|_]; [lia|]. cbn [orb] in H.
   rewrite !andb_true_iff in H. destruct H as [[[H1 H2] H3] H4]. repeat split; try assumption; lia.
 Qed.
@@ -159,13 +225,16 @@ Proof.
   pose proof shdr_size_pos as Hp.
   assert (Hf : fits_layout (L_shdr s) (shdr_vals (snd x)) = true)
     by exact (forallb_nth_error _ _ _ _ Hfits Hx).
-  destruct (table_entry img _ _ _ i _ Hoff ltac:(lia) ltac:(lia) Htab
+  assert (Hst : 0 <= e_shentsize (i_ehdr s)) by lia.
+  assert (Hi0 : 0 <= i) by lia.
+  destruct (table_entry img _ _ _ i _ Hoff Hst Hi0 Htab
               (nth_error_map_some (fun x => encode_shdr s (snd x)) _ _ _ Hx)) as [t Ht].
   fold pos in Ht.
-  assert (Hpos : 0 <= pos) by (unfold pos; nia).
+  assert (Hpos : 0 <= pos) by (unfold pos; apply Z.add_nonneg_nonneg; [lia|apply Z.mul_nonneg_nonneg; lia]).
   assert (Hlt : pos < zlen img).
   { eapply record_inside; [exact Hpos|exact Ht|].
-    unfold encode_shdr. eapply encode_layout_nonempty; [exact Hf|].
+    unfold encode_shdr.
+    apply encode_layout_nonempty with (sz := if i_is64 s then 63%nat else 39%nat); [exact Hf|].
     unfold L_shdr. rewrite size_Shdr. destruct (i_is64 s); reflexivity. }
   split; [lia|].
   apply struct_parse_at_exact with (L := L_shdr s) (vals := shdr_vals (snd x)) (t := t).
@@ -182,7 +251,7 @@ Proof.
   intros Hx. destruct (section_record i x Hx) as [Hpos Hparse].
   pose proof (nth_sec_inv _ _ _ Hx) as [Hi _].
   destruct (sections_parts ltac:(lia)) as (Hsz & _).
-  unfold get_section_header, section_offset.
+  unfold get_section_header, section_offset, gen_section_offset.
   rewrite hdr_shoff, hdr_shentsize.
   change (Shdr C) with (gen_Elf_Shdr (i_le s) (i_is64 s)). rewrite sizeof_Shdr.
   unfold shdr_size in Hsz.
@@ -193,5 +262,150 @@ Proof.
   replace (zlen img <? e_shoff (i_ehdr s) + i * e_shentsize (i_ehdr s)) with false
     by (symmetry; apply Z.ltb_ge; lia).
   rewrite core_shb. change (c_img C) with img. rewrite Hparse. reflexivity.
+Qed.
+(* ---- what every section object needs: Section.__init__ *)
+Lemma in_kind_ok x : In x (i_sections s) -> kind_ok img s x = true.
+Proof.
+  intros Hx. pose proof wf_kinds as H. rewrite kinds_ok_eq, forallb_forall in H. exact (H x Hx).
+Qed.
+Lemma in_base_ok x : In x (i_sections s) -> base_ok img s (snd x) = true.
+Proof.
+  intros Hx. pose proof (in_kind_ok x Hx) as H. rewrite kind_ok_eq in H.
+  apply andb_prop in H. tauto.
+Qed.
+Lemma in_req_ok x : In x (i_sections s) ->
+  req_ok img s (snd x) (snd (kind_entry (sh_tyname s (snd x)) (fst x))) = true.
+Proof.
+  intros Hx. pose proof (in_kind_ok x Hx) as H. rewrite kind_ok_eq in H.
+  apply andb_prop in H. tauto.
+Qed.
+
+Lemma section_init_ok h : base_ok img s h = true -> section_init C (exp_shdr s h) = Ok tt.
+Proof.
+  intros Hb. unfold section_init. rewrite shdr_get_flags, shdr_get_offset, SHF_COMPRESSED_val.
+  rewrite base_ok_eq in Hb. unfold SHF_COMPRESSED_STD in Hb.
+  destruct (Z.land (sh_flags h) 2048 =? 0); [reflexivity|]. cbn [orb negb] in Hb |- *.
+  destruct (struct_parse_at_readable (Chdr C) _ (chdr_binds C) (c_img C) (sh_offset h)
+              (gen_Elf_Chdr_gabi _ _) Hb) as [r Hr].
+  - pose proof wf_len. rewrite SEEK_LIMIT_val. exact H.
+  - apply nonstrict_chdr.
+  - rewrite Hr. reflexivity.
+Qed.
+
+(* ---- counts *)
+Lemma counts_sections :
+  (n_sections s = 0 /\ e_shoff (i_ehdr s) = 0) \/
+  (0 < n_sections s /\ 0 < e_shoff (i_ehdr s) /\
+   ((e_shnum (i_ehdr s) = n_sections s /\ n_sections s < SHN_LORESERVE) \/
+    (e_shnum (i_ehdr s) = 0 /\ sh_size (sec0 s) = n_sections s))).
+Proof. pose proof wf_counts as H. rewrite counts_ok_eq in H. cbv zeta in H. lia. Qed.
+
+Lemma counts_segments :
+  (n_segments s = 0 /\ e_phoff (i_ehdr s) = 0) \/
+  (0 < e_phoff (i_ehdr s) /\
+   ((e_phnum (i_ehdr s) = n_segments s /\ n_segments s < PN_XNUM) \/
+    (e_phnum (i_ehdr s) = PN_XNUM /\ 0 < n_sections s /\ sh_info (sec0 s) = n_segments s))).
+Proof. pose proof wf_counts as H. rewrite counts_ok_eq in H. cbv zeta in H. lia. Qed.
+
+Lemma counts_strndx : 0 < n_sections s ->
+  0 <= i_shstrndx s < n_sections s /\
+  ((e_shstrndx (i_ehdr s) = i_shstrndx s /\ i_shstrndx s < SHN_LORESERVE) \/
+   (e_shstrndx (i_ehdr s) = XINDEX /\ sh_link (sec0 s) = i_shstrndx s)).
+Proof.
+  intros Hn. pose proof wf_counts as H. rewrite counts_ok_eq in H. cbv zeta in H.
+  destruct (Z.eqb_spec (n_sections s) 0) as [E|_]; [lia|]. lia.
+Qed.
+Lemma counts_strndx0 : n_sections s = 0 -> i_shstrndx s = 0.
+Proof.
+  intros Hn. pose proof wf_counts as H. rewrite counts_ok_eq in H. cbv zeta in H.
+  destruct (Z.eqb_spec (n_sections s) 0) as [_|E]; [|lia]. lia.
+Qed.
+
+Lemma section0 : 0 < n_sections s -> exists x, nth_sec s 0 = Some x /\ sec0 s = snd x.
+Proof.
+  intros Hn. destruct (nth_sec_some s 0 ltac:(lia)) as [x Hx]. exists x. split; [exact Hx|].
+  apply sec0_nth. exact Hx.
+Qed.
+
+Lemma num_sections_ok : num_sections EF = Ok (n_sections s).
+Proof.
+  unfold num_sections. cbn [ef_core exp_file]. rewrite hdr_shoff, hdr_shnum.
+  destruct counts_sections as [[Hn Ho]|(Hn & Ho & Hc)].
+  - rewrite Ho, Hn. reflexivity.
+  - destruct (Z.eqb_spec (e_shoff (i_ehdr s)) 0) as [E|_]; [lia|].
+    destruct (section0 Hn) as (x0 & Hx0 & Hs0).
+    destruct (Z.eqb_spec (e_shnum (i_ehdr s)) 0) as [E|E].
+    + rewrite (section_header_ok 0 x0 Hx0). cbn [bind some_hdr]. rewrite shdr_get_size.
+      rewrite <- Hs0. f_equal. unfold SHN_LORESERVE in Hc. lia.
+    + f_equal. lia.
+Qed.
+
+Lemma get_shstrndx_ok : 0 < n_sections s -> get_shstrndx C = Ok (i_shstrndx s).
+Proof.
+  intros Hn. unfold get_shstrndx. rewrite hdr_shstrndx, SHN_XINDEX_val.
+  destruct (counts_strndx Hn) as [Hk Hc]. unfold SHN_LORESERVE, XINDEX in Hc.
+  destruct (Z.eqb_spec (e_shstrndx (i_ehdr s)) 65535) as [E|E]; cbn [negb].
+  - destruct (section0 Hn) as (x0 & Hx0 & Hs0).
+    rewrite (section_header_ok 0 x0 Hx0). cbn [bind]. rewrite shdr_get_link, <- Hs0. f_equal. lia.
+  - f_equal. lia.
+Qed.
+
+Lemma strtab_some : 0 < n_sections s ->
+  exists xk, nth_sec s (i_shstrndx s) = Some xk /\ exp_strtab s = Some (exp_shdr s (snd xk)).
+Proof.
+  intros Hn. destruct (counts_strndx Hn) as [Hk _].
+  destruct (nth_sec_some s _ Hk) as [xk Hxk]. exists xk. split; [exact Hxk|].
+  unfold exp_strtab. rewrite Hxk. reflexivity.
+Qed.
+
+Lemma stringtable_ok : get_section_header_stringtable C = Ok (exp_strtab s).
+Proof.
+  unfold get_section_header_stringtable. rewrite hdr_shoff.
+  destruct counts_sections as [[Hn Ho]|(Hn & Ho & _)].
+  - rewrite Ho. cbn [Z.eqb]. unfold exp_strtab, nth_sec. rewrite (counts_strndx0 Hn), Hn. reflexivity.
+  - destruct (Z.eqb_spec (e_shoff (i_ehdr s)) 0) as [E|_]; [lia|].
+    rewrite (get_shstrndx_ok Hn). cbn [bind].
+    destruct (strtab_some Hn) as (xk & Hxk & Est).
+    rewrite (section_header_ok _ xk Hxk), Est. cbn [bind].
+    rewrite (section_init_ok _ (in_base_ok xk (nth_sec_in _ _ _ Hxk))). reflexivity.
+Qed.
+
+(* ---- ELFFile(stream) succeeds and holds the abstract content *)
+Lemma open_ok : elf_open img = Ok EF.
+Proof.
+  unfold elf_open. rewrite identify_ok. cbn [bind]. rewrite parse_header_ok. cbn [bind].
+  fold C. rewrite stringtable_ok. reflexivity.
+Qed.
+
+(* ---- names *)
+Lemma in_name_at x : In x (i_sections s) -> name_at img s x = true.
+Proof.
+  intros Hx. pose proof wf_names as H. rewrite names_ok_eq, forallb_forall in H. exact (H x Hx).
+Qed.
+
+Lemma section_name_ok x : In x (i_sections s) ->
+  get_section_name EF (Some (exp_shdr s (snd x))) = Ok (fst x).
+Proof.
+  intros Hx. assert (Hn : 0 < n_sections s).
+  { unfold n_sections, zlen. destruct (i_sections s); [destruct Hx|cbn [length]; lia]. }
+  destruct (strtab_some Hn) as (xk & Hxk & Est).
+  unfold get_section_name. cbn [ef_strtab exp_file ef_core]. rewrite Est. cbn [some_hdr bind].
+  unfold get_string. rewrite shdr_get_offset, shdr_get_name.
+  pose proof (in_name_at x Hx) as Hna. rewrite name_at_eq in Hna.
+  apply andb_prop in Hna. destruct Hna as [Hnn Hat].
+  unfold strtab_offset in Hat. rewrite Hxk in Hat.
+  apply at_skipn in Hat. destruct Hat as [Hpos [t Ht]].
+  set (pos := sh_offset (snd xk) + sh_name (snd x)) in *.
+  assert (Hlt : pos < zlen img).
+  { eapply record_inside; [exact Hpos|exact Ht|]. destruct (fst x); discriminate. }
+  pose proof wf_len as Hl.
+  destruct (Z.leb_spec SEEK_LIMIT pos) as [E|_]; [rewrite SEEK_LIMIT_val in E; lia|].
+  change (stream_len C) with (zlen img). destruct (Z.leb_spec (zlen img) pos) as [E|_]; [lia|].
+  change (c_img C) with img.
+  assert (Hle : (Z.to_nat pos <= length img)%nat) by (unfold zlen in Hlt; lia).
+  destruct (skipn_split _ _ _ _ Ht Hle) as [Himg Hfl].
+  rewrite <- app_assoc in Himg. cbn [app] in Himg.
+  rewrite Himg at 1. rewrite <- Hfl at 2.
+  rewrite (parse_cstring_at_valid _ _ _ Hnn). reflexivity.
 Qed.
 End WF.
